@@ -25,7 +25,8 @@ P("C09",
              "EventProcessor mirroring C09.Model.activate, engine BeforeEvent hook for the trace); the hand-written world model, tied "
              "by exact equality of the full (time, handler) trace and of every port's final state on 500 (quick) random topologies. "
              "The abstract connection-in-environment system of the invariant proof shares tick/port/scheduler definitions with the "
-             "executable model but the correspondence between the two is by construction, not a theorem.",
+             "executable model; that runs of the executable model are runs of it is a theorem for one-connection worlds "
+             "(c09_world_projects_partial) and by construction otherwise.",
   assumptions=["all handlers run on the serial engine; clock periods divide 10^12 ps; times stay far below 2^64 (no wrap: C42)",
                "every port has an owner and is plugged into exactly one direct connection; port names are distinct",
                "scripted components only: a component's activation = fire due timers, drain, flush (C09/Model.v activate); "
